@@ -335,12 +335,19 @@ func (packet *Packet) IsErr() bool {
 	return packet.data[0] == ErrPacket
 }
 
-func (packet *Packet) getServerCapabilities() uint32 {
+func (packet *Packet) getServerCapabilities() (uint32, error) {
 	// https://dev.mysql.com/doc/internals/en/connection-phase-packets.html#idm140437490034448
-	endOfServerVersion := bytes.Index(packet.data[1:], []byte{0}) + 2 // 1 first byte of protocol version and 1 to point to next byte
+	serverVersionTerminator := bytes.Index(packet.data[1:], []byte{0})
+	if serverVersionTerminator == -1 {
+		return 0, base_mysql.ErrMalformPacket
+	}
+	endOfServerVersion := serverVersionTerminator + 2 // 1 first byte of protocol version and 1 to point to next byte
 	// 4 bytes connection string + 8 bytes of auth plugin + 1 byte filler
+	if len(packet.data) < endOfServerVersion+13+2 {
+		return 0, base_mysql.ErrMalformPacket
+	}
 	rawCapabilities := packet.data[endOfServerVersion+13 : endOfServerVersion+13+2]
-	return uint32(binary.LittleEndian.Uint16(rawCapabilities))
+	return uint32(binary.LittleEndian.Uint16(rawCapabilities)), nil
 }
 
 // https://mariadb.com/kb/en/connection/#initial-handshake-packet
@@ -373,9 +380,12 @@ func (packet *Packet) getClientExtendedMariaDBCapabilities() uint32 {
 	return binary.LittleEndian.Uint32(extendedCapabilities)
 }
 
-func (packet *Packet) getClientCapabilities() uint32 {
+func (packet *Packet) getClientCapabilities() (uint32, error) {
 	// https://dev.mysql.com/doc/internals/en/connection-phase-packets.html#idm140437489940880
-	return binary.LittleEndian.Uint32(packet.data[:4])
+	if len(packet.data) < 4 {
+		return 0, base_mysql.ErrMalformPacket
+	}
+	return binary.LittleEndian.Uint32(packet.data[:4]), nil
 }
 
 // ReadPacket from connection and return Packet struct with data or error
